@@ -72,6 +72,61 @@ theorem testTrans_spec {P : Prog} {n : Nat} {c0 : Cfg} {f : Cfg → Cfg → Bool
     exact ⟨c, c', reach_runOk hc, trans_runOk hc hc', h⟩
   · cases h
 
+theorem step_runOk {P : Prog} {c0 c c' : Cfg} {n : Nat} (h : runOk P n c0 = some c) (h' : runOk P (n + 1) c0 = some c') :
+    step P c = .ok c' := by
+  unfold runOk at h'
+  rw [h] at h'
+  dsimp only at h'
+  split at h'
+  · rename_i c'' hs
+    cases h'
+    exact hs
+  · cases h'
+
+theorem reach_runOk_from {P : Prog} {c0 c1 c2 : Cfg} {n : Nat} (k : Nat) (h1 : runOk P n c0 = some c1)
+    (h2 : runOk P (n + k) c0 = some c2) : Reach P c1 c2 := by
+  induction k generalizing c2 with
+  | zero => rw [Nat.add_zero, h1] at h2; cases h2; exact .init
+  | succ k ih =>
+    rw [← Nat.add_assoc] at h2
+    unfold runOk at h2
+    split at h2
+    · rename_i c' hc'
+      split at h2
+      · rename_i c'' hs
+        cases h2
+        exact .step (ih hc') hs
+      · cases h2
+    · cases h2
+
+def headIsNewLoop : List Instr → Bool
+  | .newLoop _ :: _ => true
+  | _ => false
+
+theorem headIsNewLoop_spec {l : List Instr} (h : headIsNewLoop l = true) : ∃ s K, l = .newLoop s :: K := by
+  cases l with
+  | nil => cases h
+  | cons a l => cases a <;> first | (cases h; done) | exact ⟨_, _, rfl⟩
+
+/-- boolean test on an `execute_new_loop` call (step `n`) and a later transition (step `n + 1 + k`) -/
+def testCall (P : Prog) (n k : Nat) (c0 : Cfg) (f : Cfg → Cfg → Cfg → Cfg → Bool) : Bool :=
+  match runOk P n c0, runOk P (n + 1) c0, runOk P (n + 1 + k) c0, runOk P (n + 1 + k + 1) c0 with
+  | some c, some c1, some c2, some c3 => headIsNewLoop c.code && f c c1 c2 c3
+  | _, _, _, _ => false
+
+theorem testCall_spec {P : Prog} {n k : Nat} {c0 : Cfg} {f : Cfg → Cfg → Cfg → Cfg → Bool}
+    (h : testCall P n k c0 f = true) :
+    ∃ c c1 c2 c3 s K, Reach P c0 c ∧ c.code = .newLoop s :: K ∧ step P c = .ok c1 ∧ Reach P c1 c2 ∧ Trans P c2 c3 ∧
+      f c c1 c2 c3 = true := by
+  unfold testCall at h
+  split at h
+  · rename_i c c1 c2 c3 hc hc1 hc2 hc3
+    rw [Bool.and_eq_true] at h
+    obtain ⟨s, K, hK⟩ := headIsNewLoop_spec h.1
+    exact ⟨c, c1, c2, c3, s, K, reach_runOk hc, hK, step_runOk hc hc1, reach_runOk_from k hc1 hc2,
+      trans_runOk hc2 hc3, h.2⟩
+  · cases h
+
 end Shape
 
 end Simpleline
